@@ -104,6 +104,13 @@ pub fn games(thorough: bool) -> Vec<Game> {
         // G5: clocks just below the 50- and 75-move thresholds
         g("G5a clock 98", "4k3/8/8/8/8/8/8/4K2R w - - 98 60", &["h1h2", "h2h1", "e8d8", "d8e8", "e1d1", "d1e1"], d(7, 8), false, false, true),
         g("G5b clock 148", "4k3/8/8/8/8/8/8/4K2R b - - 148 90", &["h1h2", "h2h1", "e8d8", "d8e8", "e1d1", "d1e1"], d(7, 8), false, false, true),
+        // G8: deep repetition lines with the clock near the thresholds, so that repetition draws
+        // and move-count draws of different tiers apply at the same time
+        g("G8a one knight each, clock 90 (fivefold + 50 moves)", "rnbqkbnr/pppppppp/8/8/8/8/PPPPPPPP/RNBQKBNR w KQkq - 90 46", &["g1f3", "f3g1", "g8f6", "f6g8"], d(18, 20), false, false, true),
+        g("G8b one knight each, clock 140 (threefold + 75 moves)", "rnbqkbnr/pppppppp/8/8/8/8/PPPPPPPP/RNBQKBNR b KQkq - 140 71", &["g1f3", "f3g1", "g8f6", "f6g8"], d(18, 20), false, false, true),
+        // G9: every special move kind: castling both sides and colours, promotions and
+        // capture-promotions that take a rook on its home square (castling rights lost by capture)
+        g("G9 castling + promotions capturing home rooks", "r3k2r/1P4P1/8/8/8/8/1p4p1/R3K2R w KQkq - 0 1", &["b7a8q", "g7h8n", "b7b8r", "e1g1", "e1c1", "e8g8", "e8c8", "b2a1q", "g2h1n", "e8d7", "e1d2"], d(5, 6), false, false, true),
         // G6: K v K (insufficient material, with repetitions)
         g("G6 K v K", "4k3/8/8/8/8/8/8/4K3 w - - 0 1", &["e1d1", "d1e1", "e8d8", "d8e8", "e1e2", "e2e1"], d(9, 10), false, false, true),
         // G7: lines into mate and stalemate
